@@ -138,6 +138,7 @@ func (c *fRegistryImpl) dispatch(opid uint64, frame []byte) error {
 		verifHook("reg.sent", c, opid, 1)
 	default:
 		logger().Warnf("frugal: dropping duplicate response for opid %d", opid)
+		verifHook("reg.sent", c, opid, 0)
 	}
 	return nil
 }
